@@ -57,6 +57,7 @@ func baseAlphabet() []msg {
 		{"helloReadyMid", shipx.Hello("ready", 5000, 0), "hello"},
 		{"helloPending", shipx.Hello("pending", 60000, 0), "hello"},
 		{"helloPendingShort", shipx.Hello("pending", 500, 0), "hello"},
+		{"helloPendingMid", shipx.Hello("pending", 5000, 0), "hello"},
 		{"helloPendingProlong", shipx.Hello("pending", -1, 1), "hello"},
 		{"helloPendingProlongFalse", shipx.Hello("pending", -1, 2), "hello"},
 		{"helloPendingBare", shipx.Hello("pending", -1, 0), "hello"},
@@ -96,7 +97,7 @@ func baseAlphabet() []msg {
 
 // valid handshake messages only (the smallest alphabet that reaches every phase)
 func coreIDs() map[string]bool {
-	return set("init", "helloReady", "helloPending", "helloPendingProlong", "helloAborted", "protAnnounce", "protSelect", "pinNone", "accReq", "accA", "accB",
+	return set("init", "helloReady", "helloPending", "helloPendingMid", "helloPendingProlong", "helloAborted", "protAnnounce", "protSelect", "pinNone", "accReq", "accA", "accB",
 		"closeAnnounce", "closeConfirm", "data1", "data2", "notJSON")
 }
 
@@ -364,6 +365,9 @@ func (w *world) key() string {
 	}
 	// ghost state the monitors depend on
 	g := w.ghost()
+	if w.mon != nil && w.mon.Answered(w.C) {
+		sb.WriteString("|timer-answered")
+	}
 	fmt.Fprintf(&sb, "|g=%s|u=%d%d%d%d", g, cap2(w.approveCalls), cap2(w.cancelCalls), cap2(w.closeCalls), w.appWrites)
 	return sb.String()
 }
